@@ -187,6 +187,14 @@ def explore(res, tier, seed, only=None):
         o["cases"][0]["model"] = [l for l in o["cases"][0]["model"] if not l.startswith("range ")]
     C.sh(["rm", "-rf", tmp, os.path.join(wd, "iso_debug"), os.path.join(wd, "iso_release")])
     json.dump(out, open(cache, "w"))
+    # keep the work directory small: only the four most recent explorations are kept
+    import glob
+    old = sorted(glob.glob(os.path.join(C.WORK, "damage_cache_*.json")), key=os.path.getmtime)[:-4]
+    for p in old:
+        try:
+            os.remove(p)
+        except OSError:
+            pass
     return out
 
 
